@@ -218,6 +218,56 @@ theorem third_eccentricity_sq_inverse (hf : f < 1) :
 
 example : (-1 / 100 : ℝ) < 1 ∧ (1 / 298 : ℝ) < 1 := by constructor <;> norm_num
 
+/-- `FlatteningToSecondEccentricitySq ∘ SecondEccentricitySqToFlattening = id` for e′² > −1 -/
+theorem second_eccentricity_sq_inverse' (ep2 : ℝ) (h : -1 < ep2) :
+    flatteningToSecondEccentricitySq (secondEccentricitySqToFlattening ep2) = ep2 := by
+  unfold secondEccentricitySqToFlattening flatteningToSecondEccentricitySq RealLike.sq
+  simp only [lit_real, sqrt_real]; push_cast
+  set s := √(1 + ep2) with hs
+  have hs0 : 0 < s := Real.sqrt_pos.mpr (by linarith)
+  have hss : s * s = 1 + ep2 := Real.mul_self_sqrt (by linarith)
+  have he : ep2 = s * s - 1 := by linarith
+  have hden : s + 1 + ep2 = s * (s + 1) := by rw [he]; ring
+  have hf : ep2 / (s + 1 + ep2) = 1 - 1 / s := by
+    rw [hden, he]; field_simp; ring
+  rw [hf]
+  have h1 : (1 : ℝ) - (1 - 1 / s) = 1 / s := by ring
+  rw [h1, he]; field_simp; ring
+
+/-- `FlatteningToThirdEccentricitySq ∘ ThirdEccentricitySqToFlattening = id` for −1 < e″² < 1 -/
+theorem third_eccentricity_sq_inverse' (t : ℝ) (h1 : -1 < t) (h2 : t < 1) :
+    flatteningToThirdEccentricitySq (thirdEccentricitySqToFlattening t) = t := by
+  unfold thirdEccentricitySqToFlattening flatteningToThirdEccentricitySq RealLike.sq
+  simp only [lit_real, sqrt_real]; push_cast
+  set r := √((1 - t) * (1 + t)) with hr
+  have hpos : 0 < (1 - t) * (1 + t) := by nlinarith
+  have hr0 : 0 < r := Real.sqrt_pos.mpr hpos
+  have hrr : r * r = (1 - t) * (1 + t) := Real.mul_self_sqrt hpos.le
+  have hD : 0 < r + 1 + t := by linarith
+  have hf1 : (1 : ℝ) - 2 * t / (r + 1 + t) = (r + 1 - t) / (r + 1 + t) := by field_simp; ring
+  have hsq : ((r + 1 - t) / (r + 1 + t)) * ((r + 1 - t) / (r + 1 + t)) = (1 - t) / (1 + t) := by
+    have e1 : (r + 1 - t) * (r + 1 - t) = 2 * (1 - t) * (1 + r) := by nlinarith
+    have e2 : (r + 1 + t) * (r + 1 + t) = 2 * (1 + t) * (1 + r) := by nlinarith
+    rw [div_mul_div_comm, e1, e2]
+    have : (1 : ℝ) + t ≠ 0 := by linarith
+    have : (1 : ℝ) + r ≠ 0 := by linarith
+    field_simp
+  have hnum : 2 * t / (r + 1 + t) * (2 - 2 * t / (r + 1 + t)) = 1 - ((r + 1 - t) / (r + 1 + t)) * ((r + 1 - t) / (r + 1 + t)) := by
+    field_simp; ring
+  rw [hf1, hnum, hsq]
+  have : (1 : ℝ) + t ≠ 0 := by linarith
+  field_simp; ring
+
+/-- `Volume() = 4π a² b / 3` -/
+theorem volume_closed_form (a f : ℝ) : volume a f = 4 * π * a ^ 2 * (a * (1 - f)) / 3 := by
+  unfold volume ctorB RealLike.sq
+  simp only [lit_real]; push_cast
+  show (4 * Real.pi) * (a * a) * (a * (1 - f)) / 3 = _
+  ring
+
+example : (-1 : ℝ) < 1 / 150 ∧ (-1 : ℝ) < -1 / 300 ∧ (-1 / 300 : ℝ) < 1 := by norm_num
+
+
 end algebra
 
 /-! ### the series path of `Convert` is odd and fixes the equator and the poles (for every coefficient vector) -/
